@@ -186,6 +186,123 @@ def int16_signal(style, n, seed):
     return (np.round(12000 * np.sin(np.arange(n) * 0.05 + seed)) + r.randint(-3, 4, size=n)).astype(np.int16)
 
 
+# ----------------------------------------------------------------------------- purity guard around EVERY call of the run
+# The statement describes pure functions of the sample values ("returns ...", "reproduces ... exactly"): a call must not
+# change the caller's arrays (also when it raises) and must hand back an object of its own - the one exception being
+# crop_samples, whose result is a slice view of its input by construction.  Every call the harness makes to one of the
+# seven functions (all streams, corpus cases and oracles, not only the call histories) goes through `Guard`, which
+# compares each array argument byte for byte before/after, records a self-contained replay when one changed, and puts
+# the original contents back so that nothing downstream is computed from values the library scribbled over.
+GUARDED = {'i2f': 'int16_samples_to_float32', 'f2i': 'float_samples_to_int16', 'enc': 'samples_to_wav_data',
+           'dec': 'wav_data_to_samples', 'crop': 'crop_samples', 'repeat': 'repeat_samples_to_duration', 'stereo': 'make_stereo'}
+_GUARDED_NAMES = set(GUARDED.values())
+
+
+def _enc_arg(a, sl=None):
+    if isinstance(a, np.ndarray):
+        b = a if sl is None else a[:sl]
+        flat = b.astype(np.float64 if issubclass(b.dtype.type, np.floating) else np.int64).ravel().tolist()
+        return {'nd': b.dtype.name, 'shape': list(b.shape), 'v': flat}
+    if isinstance(a, (bytes, bytearray)):
+        return {'hex': bytes(a).hex()}
+    if isinstance(a, (np.integer,)):
+        return int(a)
+    if isinstance(a, (np.floating,)):
+        return float(a)
+    return a
+
+
+def _dec_arg(a):
+    if isinstance(a, dict) and 'nd' in a:
+        return np.array(a['v'], dtype=np.float64 if a['nd'].startswith('float') else np.int64).astype(DT[a['nd']]).reshape(a['shape'])
+    if isinstance(a, dict) and 'hex' in a:
+        return bytes.fromhex(a['hex'])
+    return a
+
+
+def purity_probe(fn, name, args):
+    """calls fn(*args) once; returns (result or None, exception or None, list of purity failures, restored?)"""
+    snaps = [(i, a, a.copy(), a.tobytes(), a.dtype, a.shape) for i, a in enumerate(args) if isinstance(a, np.ndarray)]
+    out, err, bad = None, None, []
+    try:
+        with np.errstate(all='ignore'):
+            out = fn(*args)
+    except BaseException as e:  # pylint: disable=broad-except
+        if isinstance(e, (KeyboardInterrupt, SystemExit)):
+            raise
+        err = e
+    for i, a, snap, b, dt, shp in snaps:
+        if a.dtype != dt or a.shape != shp or a.tobytes() != b:
+            chg = np.flatnonzero(np.frombuffer(a.tobytes(), np.uint8) != np.frombuffer(b, np.uint8)) if a.shape == shp and a.dtype == dt else [0]
+            k = int(chg[0]) // max(1, a.itemsize)
+            bad.append('%s changed its argument #%d in place%s: element %d was %r, is %r afterwards (%d of %d elements changed)' % (
+                name, i + 1, ' although it raised %s' % type(err).__name__ if err is not None else '', k,
+                snap.ravel()[k].item(), a.ravel()[k].item(), len(set(int(c) // max(1, a.itemsize) for c in chg)), a.size))
+            try:
+                a[...] = snap
+            except Exception:  # pylint: disable=broad-except
+                pass
+        if isinstance(out, np.ndarray):
+            if out is a:
+                bad.append('%s returned its argument #%d itself (result is argument), not a new array' % (name, i + 1))
+            elif name != 'crop_samples' and a.size and out.size and np.shares_memory(out, a):
+                bad.append('%s returned an array that shares memory with its argument #%d' % (name, i + 1))
+    return out, err, bad
+
+
+class Guard(object):
+    """stands in for the note_seq.audio_io module inside run(): the seven functions of the statement are wrapped by
+    purity_probe, everything else (exception classes, ...) passes through"""
+
+    def __init__(self, raw):
+        self.raw = raw
+        self.impure = []      # (text, replay object)
+        self.calls = 0
+
+    def __getattr__(self, name):
+        v = getattr(self.raw, name)
+        if name not in _GUARDED_NAMES:
+            return v
+
+        def call(*args):
+            self.calls += 1
+            out, err, bad = purity_probe(v, name, args)
+            if bad and len(self.impure) < 8:
+                # smallest self-contained replay: the first 4 samples / frames of every array argument
+                small = [a[:4].copy() if isinstance(a, np.ndarray) else a for a in args]
+                if purity_probe(v, name, [a.copy() if isinstance(a, np.ndarray) else a for a in small])[2]:
+                    rep = {'kind': 'purity', 'fn': name, 'args': [_enc_arg(a) for a in small]}
+                else:
+                    rep = {'kind': 'purity', 'fn': name, 'args': [_enc_arg(a, 20000) for a in args]}
+                self.impure.append((bad[0], rep))
+            if err is not None:
+                raise err
+            return out
+        return call
+
+
+def oracle_purity(A, o):
+    """replays one recorded call on private copies of its arguments: the arguments must come back byte for byte, and
+    calling again on the same objects must give the same answer"""
+    raw = getattr(A, 'raw', A)
+    fn = getattr(raw, o['fn'])
+    args = [_dec_arg(a) for a in o['args']]
+    out1, err1, bad = purity_probe(fn, o['fn'], args)
+    if bad:
+        return bad[0]
+    out2, err2, bad = purity_probe(fn, o['fn'], args)
+    if bad:
+        return bad[0]
+    if (err1 is None) != (err2 is None) or (err1 is not None and type(err1) is not type(err2)):
+        return '%s: second call on the same arguments ended differently (%r / %r)' % (o['fn'], err1, err2)
+    if err1 is None:
+        same = (out1 == out2) if isinstance(out1, bytes) else (
+            isinstance(out2, np.ndarray) and out1.dtype == out2.dtype and out1.shape == out2.shape and out1.tobytes() == out2.tobytes())
+        if not same:
+            return '%s: second call on the same (unchanged) argument objects returned a different value' % o['fn']
+    return None
+
+
 # ----------------------------------------------------------------------------- one case = request + impl + oracle
 # A case is a JSON-able dict (ints stay ints, floats round-trip exactly through repr).
 # build_* gives (stream, request line, canonical implementation answer, histogram keys);
@@ -445,6 +562,7 @@ def run_history(A, h, count=None):
     """replays the history against the real code; returns the first failure text or None.  `count(hist key)` records
     coverage."""
     count = count or (lambda key: None)
+    A = getattr(A, 'raw', A)          # the history does its own before/after comparison on the objects it keeps
     pool = [hist_build(sp) for sp in h['pool']]
     fpool = [ref_i2f(a) if sp.get('pcm') else None for a, sp in zip(pool, h['pool'])]     # float32 twin of each int16 signal
     keep = []        # every array handed in or returned so far, kept alive: (label, array)
@@ -601,7 +719,8 @@ def oracle_history(A, h):
 
 
 BUILD = {'crop': build_crop, 'repeat': build_repeat, 'stereo': build_stereo}
-ORACLE = {'crop': oracle_crop, 'repeat': oracle_repeat, 'stereo': oracle_stereo, 'wav': oracle_wav, 'history': oracle_history}
+ORACLE = {'crop': oracle_crop, 'repeat': oracle_repeat, 'stereo': oracle_stereo, 'wav': oracle_wav, 'history': oracle_history,
+          'purity': oracle_purity}
 
 
 # ----------------------------------------------------------------------------- generators
@@ -745,8 +864,27 @@ def f2i_values(rng, dtype, count):
 # ----------------------------------------------------------------------------- run
 def run(chk):
     warnings.filterwarnings('ignore')
+    import note_seq.audio_io as raw
+    A = Guard(raw)
+    crashed = None
+    try:
+        _run(chk, A)
+    except Exception as e:  # pylint: disable=broad-except
+        if not A.impure:
+            raise
+        crashed = e          # the harness tripped over values the library had changed under it: report the cause below
+    st, label = chk.stream('oracle:purity'), 'calls whose array arguments were compared byte for byte before/after'
+    st['evaluations'] += A.calls
+    st['hist'][label] = st['hist'].get(label, 0) + A.calls
+    for text, rep in A.impure[:5]:
+        chk.fail(text, rep)
+        chk.failures.insert(0, chk.failures.pop())
+    if crashed is not None:
+        chk.notes['harness_stopped_early'] = '%s: %s (after the purity failure above)' % (type(crashed).__name__, crashed)
+
+
+def _run(chk, A):
     import scipy.io.wavfile as W
-    import note_seq.audio_io as A
     generate(chk)
     chk.prove(MODULES, THEOREMS, [EXE], extra_trusted=[
         'rne24 / rne53 as models of numpy float32 / float64 arithmetic (validated bit-exactly against numpy for all '
@@ -881,6 +1019,14 @@ def run(chk):
         chk.count('monitor:unreadable-wav', None, hist=got)
         if got != 'AudioIOReadError':
             chk.disagree('monitor:unreadable-wav', {'bytes': junk.hex()}, got, 'AudioIOReadError')
+
+    # ---- purity corpus (single recorded calls, replayed on private copies, twice)
+    for (_, o) in corpus_cases(PID):
+        if o.get('kind') == 'purity':
+            chk.count('oracle:purity', None, False, 'corpus call replayed twice on the same argument objects')
+            r = oracle_purity(A, o)
+            if r:
+                chk.fail(r, o)
 
     # ---- (e) crop / repeat / stereo
     cases = [o for (_, o) in corpus_cases(PID) if o.get('kind') in BUILD]
